@@ -67,12 +67,22 @@ def exc_name(node):
 
 
 def handler_classes(h):
-    """None = bare except (catches everything)."""
+    """None = bare except (catches everything).  A handler whose type is
+    computed at run time cannot be decided statically: AnalysisError."""
+    from .loader import AnalysisError
     if h.type is None:
         return None
     if isinstance(h.type, ast.Tuple):
-        return [exc_name(e) for e in h.type.elts]
-    return [exc_name(h.type)]
+        elts = h.type.elts
+    else:
+        elts = [h.type]
+    out = []
+    for e in elts:
+        if isinstance(e, (ast.Name, ast.Attribute)):
+            out.append(exc_name(e))
+        else:
+            raise AnalysisError(f"line {h.lineno}: the exception classes of `except {ast.unparse(h.type)[:60]}` are computed at run time; the exception flow cannot be decided statically")
+    return out
 
 
 # ---------------------------------------------------------------------------
@@ -325,6 +335,7 @@ class ExcFlow:
         self.bases = exc_hierarchy(ctx.repo)
         self.raises = {q: {} for q in ctx.repo.funcs}
         self.lam_raises = {}
+        self.undecidable = {}
         self._stmt_events = {}
         for q, evs in ctx.cg.events.items():
             m = {}
@@ -419,6 +430,13 @@ class ExcFlow:
             body = self._block(s.body, f, handler_ctx)
             out = {}
             caught_by = [dict() for _ in s.handlers]
+            from .loader import AnalysisError
+            try:
+                for h in s.handlers:
+                    handler_classes(h)
+            except AnalysisError as exc:
+                self.undecidable[f.qual] = str(exc)
+                return body
             for cls, w in body.items():
                 hit = False
                 for i, h in enumerate(s.handlers):
@@ -463,6 +481,24 @@ class ExcFlow:
             # explicit raises with an empty re-raise context
             return self._block(h.body, f, {})
         return self._block(h.body, f, ctxc)
+
+    def check(self, qual):
+        """AnalysisError if the exception flow of `qual` depends on a handler
+        whose classes are computed at run time."""
+        from .loader import AnalysisError
+        seen = set()
+        st = [qual]
+        while st:
+            u = st.pop()
+            if u in seen:
+                continue
+            seen.add(u)
+            if u in self.undecidable:
+                raise AnalysisError(f"exception flow of {qual.split(':')[-1]} undecidable: " + self.undecidable[u])
+            for ev in self.ctx.cg.node_events(u):
+                for t in ev.targets:
+                    if t.kind == "repo":
+                        st.append(t.name)
 
     def fmt_witness(self, w):
         return " -> ".join(f"{fn}:{ln} `{tx}`" for fn, ln, tx in w)
